@@ -25,11 +25,12 @@ sys.path.insert(0, os.path.dirname(os.path.abspath(__file__)))
 from extract_constants import tokenize  # noqa: E402
 from extract_formulas import Parser, Untranslatable  # noqa: E402
 
-FILES = ['src/min_curve/ops.rs', 'src/ark_curve/ops/projective.rs', 'src/ark_curve/ops/affine.rs']
+FILES = ['src/min_curve/ops.rs', 'src/ark_curve/ops/projective.rs', 'src/ark_curve/ops/affine.rs',
+         'src/ark_curve/r1cs/ops.rs', 'src/ark_curve/r1cs/inner.rs']      # the last two: the gadget variables (value-level denotation)
 FIELD_FILES = ['src/fields/fq/ops.rs', 'src/fields/fr/ops.rs', 'src/fields/fp/ops.rs']
 TRAITS = {'Add': 'add', 'Sub': 'sub', 'Neg': 'neg', 'Mul': 'mul', 'AddAssign': 'add', 'SubAssign': 'sub', 'MulAssign': 'mul'}
 FIELD_TRAITS = dict(TRAITS, Div='div', DivAssign='div', Sum='sum', Product='prod')
-ELEM = ('Element', 'AffinePoint', 'Self')
+ELEM = ('Element', 'AffinePoint', 'Self', 'ElementVar')
 FIELD_ELEM = ('Fq', 'Fr', 'Fp', 'Self')
 
 
@@ -151,8 +152,14 @@ class Ops:
             raise Untranslatable('field .%s' % e[2])
         if k == 'method':
             v, t = self.ev(e[1], env)
-            if not e[3] and e[2] in ('into', 'into_group', 'into_affine', 'clone', 'borrow'):
+            if not e[3] and e[2] in ('into', 'into_group', 'into_affine', 'clone', 'borrow', 'element'):
                 return (v, t)
+            if e[2] in ('expect', 'unwrap') and t == 'g':
+                return (v, t)                 # `element().expect("element will exist")`: the carried value
+            if e[2] in ('add', 'sub') and t == 'g' and len(e[3]) == 1:
+                b, tb = self.ev(e[3][0], env)
+                if tb == 'g':
+                    return ('(%s %s %s)' % (v, '+' if e[2] == 'add' else '-', b), 'g')
             if not e[3] and e[2] in ('neg', 'negate') and t == 'g':
                 return ('(-%s)' % v, 'g')
             if not e[3] and e[2] == 'to_le_limbs' and t == 'k':
@@ -167,6 +174,8 @@ class Ops:
             av = [self.ev(x, env) for x in e[2]]
             if f in ('scalar_mul_vartime', 'scalar_mul') and [t for _, t in av] == ['g', 'limbs']:
                 return ('(%s • %s)' % (av[1][0], av[0][0]), 'g')        # C05: the ladder is the module action
+            if f == 'new_from_element' and [t for _, t in av] == ['g']:
+                return av[0]                                            # the lazy wrapper around an element
             raise Untranslatable('call of %s' % e[1][1])
         raise Untranslatable('expression %s' % k)
 
@@ -192,6 +201,16 @@ class Ops:
                     v = self.ev(('bin', op, ('path', name), e), env)
                 env[name] = v
                 continue
+            if k == 'expr' and s[1][0] == 'method' and s[1][2] in ('add_assign', 'sub_assign') and len(s[1][3]) == 1:
+                tgt = s[1][1]
+                while tgt[0] == 'field' and tgt[2] == 'inner':
+                    tgt = tgt[1]
+                if tgt[0] == 'path' and tgt[1] in env and env[tgt[1]][1] == 'g':
+                    b, tb = self.ev(s[1][3][0], env)
+                    if tb == 'g':
+                        env[tgt[1]] = ('(%s %s %s)' % (env[tgt[1]][0], '+' if s[1][2] == 'add_assign' else '-', b), 'g')
+                        continue
+                raise Untranslatable('in-place method statement')
             if k == 'expr' and not s[2] and i == len(stmts) - 1 and not assign_trait:
                 return self.ev(s[1], env)
             if k == 'expr' and s[1][0] == 'path' and i == len(stmts) - 1:
